@@ -80,6 +80,8 @@ TEndSignal == IsEvent("EndSignal") /\ EndSignal /\ m.loopI < m.nInit /\ Ev.w = m
 TEndJoin == IsEvent("EndJoin") /\ EndJoin /\ m.loopI < m.nInit /\ Ev.w = m.loopI + 1
 TEndDone == IsEvent("EndDone") /\ EndJoin /\ m.loopI >= m.nInit
 TAppEnd == IsEvent("AppEnd") /\ AppEnd
+TAppReinit == IsEvent("AppReinit") /\ AppReinit
+TReinited == IsEvent("Reinited") /\ Ev.a = 0 /\ m.pc = "out" /\ m.given = 0 /\ m.seq = "HDR" /\ UNCHANGED vars
 TFreed == IsEvent("Freed") /\ m.pc = "freed" /\ UNCHANGED vars
 
 TWCheck == /\ IsEvent("WCheck")
@@ -110,7 +112,7 @@ TWFinCoder == /\ IsEvent("WFinCoder") /\ WFinCoder(Ev.w)
               /\ Ev.nsig >= 1
 
 Logged == TReset \/ TCall \/ TRet \/ TRW \/ TRWWake \/ TRWTimeout \/ TStop \/ TStopDone \/ TCreate \/ TTiSetup
-          \/ TTiStart \/ TTiPartial \/ TCopy \/ TPublish \/ TEndSignal \/ TEndJoin \/ TEndDone \/ TAppEnd \/ TFreed
+          \/ TTiStart \/ TTiPartial \/ TCopy \/ TPublish \/ TEndSignal \/ TEndJoin \/ TEndDone \/ TAppEnd \/ TAppReinit \/ TReinited \/ TFreed
           \/ TWCheck \/ TWWake \/ TWDecode \/ TWPublish \/ TWFinThr \/ TWFreeIn \/ TWFinCoder
 
 \* Direct mode: the Block decoder runs in the main thread without any hook.  A call that completes the Block
